@@ -1395,6 +1395,9 @@ _vbi_cache_foreach_page		(vbi_cache *		ca,
 				--ps;
 
 				if (pgno < 0x100) {
+					if (wrapped)
+						return -1; /* all done */
+
 					pgno = 0x8FF;
 					ps = cache_network_page_stat(cn, pgno);
 					wrapped = TRUE;
@@ -1406,6 +1409,9 @@ _vbi_cache_foreach_page		(vbi_cache *		ca,
 				++ps;
 
 				if (pgno > 0x8FF) {
+					if (wrapped)
+						return -1; /* all done */
+
 					pgno = 0x100;
 					ps = cache_network_page_stat(cn, pgno);
 					wrapped = TRUE;
